@@ -1,5 +1,6 @@
 #include "endpoint.h"
 #include "peek.h"
+extern "C" void vsim_free(void *p, const char *file, const char *func, int line);
 #include <cstdlib>
 
 #include "keys.h"
@@ -269,7 +270,7 @@ int MxEndpoint::create(const EpCfg &c, const sslKeys_t *keys) {
             unsigned char *sni = nullptr; int32 sniLen = 0;
             if (matrixSslCreateSNIext(nullptr, (unsigned char *) cfg.expected_name.c_str(), (int32) cfg.expected_name.size(), &sni, &sniLen) >= 0) {
                 matrixSslLoadHelloExtension(ext, sni, (uint32) sniLen, EXT_SNI);
-                psFree(sni, nullptr);
+                vsim_free(sni, __FILE__, __func__, __LINE__);     // allocated by the library through the allocator seam: give it back the same way
             }
         }
         rc = matrixSslNewClientSession(&ssl, keys, cfg.sid, cfg.suites.empty() ? nullptr : cfg.suites.data(),
